@@ -34,6 +34,20 @@ fn base_program(cx: &mut Ctx, i: u64, rng: &mut Rng) -> Option<Prepared> {
 pub fn run_c04(cx: &mut Ctx) {
     let n: u64 = if cx.thorough { 12_000 } else { 450 };
     let mutants_per_base = if cx.thorough { 60 } else { 40 };
+    if cx.shard == 0 && cx.only_case.is_none() {
+        // every builtin alias bound to its documented definition, and one near miss per alias
+        let table = super::mini::alias_table_prog();
+        judge(cx, &table, "builtin alias table", 0);
+        for k in 0..BUILTIN_ALIASES.len() {
+            let mut q = table.clone();
+            if let Some(Item::Func(f)) = q.items.get_mut(k) {
+                // the identity function now returns another type than the alias stands for
+                let def = builtin_alias(BUILTIN_ALIASES[k]).unwrap_or(Ty::Bool);
+                f.ret = Some(if def == Ty::U(8) { Ty::U(16) } else { Ty::U(8) });
+            }
+            judge(cx, &q, "builtin alias table: result type edited", 0);
+        }
+    }
     for i in cx.cases(n) {
         if cx.out_of_time() {
             break;
